@@ -103,6 +103,28 @@ def gen_history(rng, quick):
             if rng.random() < 0.5: q = (px, px, py, py)
             else: q = (px - rng.randint(0, 3), px + rng.randint(0, 3), py - rng.randint(0, 3), py + rng.randint(0, 3))
             ops.append(('N', q, px, py))
+    if rng.random() < 0.25 and len(live) >= 4:
+        # regional removal: EVERY live item inside a region goes (whole nodes of the packed tree become empty but keep their
+        # bounds), then nearest-neighbour and box queries aimed at the emptied region, where only far-away items can answer
+        xs = sorted(e[0] for e in live.values()); ys = sorted(e[2] for e in live.values())
+        k = rng.random()
+        if k < 0.4: keep = lambda e: e[0] > xs[(3 * len(xs)) // 4 - 1]
+        elif k < 0.7: keep = lambda e: e[2] < ys[len(ys) // 4]
+        else:
+            far = rng.sample(sorted(live), min(len(live), rng.randint(1, 2)))
+            keep = lambda e, far=[live[i] for i in far]: e in far
+        gone = [i for i in sorted(live) if not keep(live[i])]
+        if 'B' not in [o[0] for o in ops]: ops.append(('B',))
+        for i in gone:
+            ops.append(('R', live[i], i))
+        for _ in range(rng.randint(3, 6)):
+            if gone and rng.random() < 0.8:
+                b = live[rng.choice(gone)]; px, py = b[0] + rng.randint(-1, 1), b[2] + rng.randint(-1, 1)
+            else:
+                px = rng.randint(-2, R + 2); py = rng.randint(-2, R + 2)
+            ops.append(('N', (px, px, py, py) if rng.random() < 0.6 else (px - 1, px + 2, py - 2, py + 1), px, py))
+        ops.append(('T',))
+        if gone: ops.append(('Q', live[rng.choice(gone)]))
     return cap, ops
 
 
